@@ -97,8 +97,23 @@ def fam_ladder(n):
 def random_connected_graph(rng, nmin=1, nmax=6, multi=True, large_ok=False):
     n = rng.randint(nmin, nmax)
     if large_ok and rng.random() < 0.06: n = rng.randint(9, 10)      # beyond the small sizes: size thresholds inside the library are crossed
-    fam = rng.choice(["path", "cycle", "star", "complete", "wheel", "barbell", "ladder", "tree", "gnp", "gnp", "gnp", "multi", "heavytree", "heavytree"])
+    fam = rng.choice(["path", "cycle", "star", "complete", "wheel", "barbell", "ladder", "tree", "gnp", "gnp", "gnp", "multi", "heavytree", "heavytree", "regularmulti"])
     if n <= 1: return mk_graph(1, [], rng), "single"
+    if fam == "regularmulti" and n >= 3:
+        # valence-regular multigraphs that are NOT simple: even cycles with alternating multiplicities (a, b) - with a + b = |V| - 1 every valence equals
+        # that of the complete graph -, complete graphs with a uniform multiplicity, cycles with a uniform multiplicity
+        kind = rng.choice(["altcycle_kn", "altcycle", "thick_complete", "thick_cycle"])
+        if kind.startswith("altcycle"):
+            if n % 2: n += 1
+            if n > max(nmax, 4): n -= 2
+            a = rng.randint(1, n - 2) if kind == "altcycle_kn" else rng.randint(1, 3); b = (n - 1 - a) if kind == "altcycle_kn" else rng.randint(1, 3)
+            e = [(i, (i + 1) % n, a if i % 2 == 0 else b) for i in range(n)]
+        elif kind == "thick_complete":
+            n = min(n, 5); k = rng.randint(2, 3); e = [(i, j, k) for i in range(n) for j in range(i + 1, n)]
+        else:
+            k = rng.randint(2, 3); e = [(i, (i + 1) % n, k) for i in range(n)]
+        perm = list(range(n)); rng.shuffle(perm)
+        return mk_graph(n, [(perm[i], perm[j], k) for i, j, k in e], rng), fam
     if fam == "heavytree":
         # trees (plus at most one extra edge) with large multiplicities: borrowing ping-pongs along heavy edges far from the sink
         e = [(i, rng.randrange(i), rng.choice([1, 1, 2, 3, 4, 5])) for i in range(1, n)]
